@@ -8,7 +8,10 @@ for lf in sorted(glob.glob(os.path.join(ROOT, 'seeded', 'logs', '*.txt'))):
     for line in open(lf):
         m = re.match(r'=== (\S+)', line)
         if m:
-            cur = m.group(1); logs.setdefault(cur, {}); continue
+            cur = m.group(1)
+            if cur.endswith('/patch'):
+                cur = cur[:-len('/patch')]
+            logs.setdefault(cur, {}); continue
         m = re.match(r'(C\d+): (DETECTED|MISSED|TOOL)\s*(.*)', line)
         if m and cur:
             logs[cur].setdefault(m.group(1), []).append({'verdict': m.group(2), 'flagged': m.group(3).strip(), 'log': os.path.basename(lf)})
@@ -29,6 +32,10 @@ for d in sorted(glob.glob(os.path.join(ROOT, 'seeded', '*'))):
             c = json.load(open(os.path.join(d, 'confirm.json')))
             meta['confirmed_by_me'] = {k: c.get(k) for k in ('confirmed', 'suite_with_change', 'demo_with_change', 'demo_without_change')}
             meta['what_i_ran'] = 'bin/confirm_seed <scratch worktree> patch.diff demo.rs  (git apply; cargo test --offline; cargo test --offline --test demo with and without the change)'
+    for half in ('patch_a', 'patch_b'):
+        if f'{name}/{half}' in logs:
+            meta.setdefault('single_edit_runs', {})[half] = {p: r[-1]['verdict'] for p, r in logs[f'{name}/{half}'].items()}
+            meta['single_edit_note'] = 'each edit alone preserves the property; MISSED = the check stays green on it, as it must'
     meta['check_runs'] = logs.get(name, {})   # per property, in chronological order (later logs = after strengthening)
     meta['final'] = {p: runs[-1]['verdict'] for p, runs in logs.get(name, {}).items()}
     meta['how_run'] = 'bin/seedrun seeded/%s/patch.diff <properties>   (git -C /repo apply; bin/verif <P>; git -C /repo checkout -- .)' % name
